@@ -25,7 +25,7 @@ type pconnIn struct {
 	Rchunks []int  `json:"rchunks"`
 	Rcap    int    `json:"rcap"`
 	Stall   bool   `json:"stall"` // the client does not read while the replies are written (needs wb > 0); it reads everything afterwards
-	Alen    int    `json:"alen"` // application's ReadFrom buffer: length and capacity (0: 70000)
+	Alen    int    `json:"alen"`  // application's ReadFrom buffer: length and capacity (0: 70000)
 	Acap    int    `json:"acap"`
 	Tag     string `json:"tag"`
 }
